@@ -129,8 +129,8 @@ struct Reg {
       s.frozen.push_back("x_bar");
       s.alphabet = [](const std::string& n, LD b, LD d) {
         if (n == "m") return std::vector<LD>{d, -1.0L, 0.0L};
-        if (n == "sigma") return std::vector<LD>{d, 0.5L, 1.0L, 3.0L};
-        return std::vector<LD>{d, 2.0L, 1.0L};
+        if (n == "sigma") return std::vector<LD>{d, 0.5L, 1.0L, 3.0L, 4096.0L};  // 4096: vague prior (the data dominate: sigma_d^2/(n sigma^2) ~ 1e-10)
+        return std::vector<LD>{d, 2.0L, 1.0L, 0.0625L};
       };
       s.apply_variant = cp_apply_variant;
       s.points = [](int tier) {
